@@ -79,10 +79,25 @@ def run_dim(chk, dim, machine, tracemod, cmd, plans, replay_vecs=None):
         first = bad[:8]
         o2, b2 = replay_and_judge([e["scene"] for e, _ in first])
         again = {json.dumps(e["scene"], sort_keys=True): why for e, why in b2}
+        lone = [(e, why) for e, why in first if json.dumps(e["scene"], sort_keys=True) not in again]
+        if lone:
+            # not rejected when rendered alone: does it depend on the renders that came before it in the same process?
+            # (a renderer that keeps state between renders).  Render the whole sequence again, in the same order.
+            o3, b3 = replay_and_judge(allvec)
+            again3 = {json.dumps(e["scene"], sort_keys=True): why for e, why in b3}
+            for e, why in lone:
+                k = json.dumps(e["scene"], sort_keys=True)
+                if k not in again3:
+                    raise vlib.Inconclusive("rejected observation did not reproduce: %s" % k)
+                i = next(j for j, o in enumerate(o3) if json.dumps(o["scene"], sort_keys=True) == k)
+                chk.violation("after-earlier-renders:" + key_of(e, again3[k]),
+                              "real %dD hierarchical render of scene %s is rejected (%s) when it follows the %d earlier renders of the "
+                              "same process, twice in a row, but not when rendered alone: the renderer carries state from one render "
+                              "into the next" % (dim, k, again3[k], i), dict(dim=dim, vectors=allvec[:i + 1], why=again3[k]))
         for e, why in first:
             k = json.dumps(e["scene"], sort_keys=True)
             if k not in again:
-                raise vlib.Inconclusive("rejected observation did not reproduce: %s" % k)
+                continue
             chk.violation(key_of(e, again[k]), "real %dD hierarchical render of scene %s rejected: %s" % (dim, k, again[k]),
                           dict(dim=dim, vector=e["scene"], why=again[k]))
     if flagged_all and not bad:
@@ -117,10 +132,12 @@ def run(chk, replay):
                 chk.violation("hier:%s:%dd:cells%d:seq%d" % (e["name"], e["dim"], e["cells"], e["seq"]), why, dict(kind="tight", obs=e))
             chk.traces += len(hobs)
             return
+        # a history-dependent finding carries the whole sequence of renders up to the rejected one
+        vecs = r["vectors"] if "vectors" in r else [r["vector"]]
         if r["dim"] == 3:
-            run_dim(chk, 3, "OctreeM", "OctTrace", "c07-replay", None, [r["vector"]])
+            run_dim(chk, 3, "OctreeM", "OctTrace", "c07-replay", None, vecs)
         else:
-            run_dim(chk, 2, "QuadtreeM", "QuadTrace", "c07-replay2", None, [r["vector"]])
+            run_dim(chk, 2, "QuadtreeM", "QuadTrace", "c07-replay2", None, vecs)
         return
     if chk.tier == "quick":
         p3 = [(2, 3, "box", 0), (2, 3, "box2", 1500), (2, 3, "diag", 1500), (4, 5, "diag", 300)]
